@@ -25,7 +25,7 @@ func UserTypeNamesFromTypeConstraint(node ischema.Node) []string {
 	}
 
 	name := typ.Bytes().Unquote().String()
-	if name[0] == '@' {
+	if len(name) != 0 && name[0] == '@' {
 		return []string{name}
 	}
 
@@ -46,7 +46,7 @@ func UserTypeNamesFromTypesListConstraint(node ischema.Node) []string {
 	res := make([]string, 0, list.Len())
 
 	for _, name := range list.Names() {
-		if name[0] == '@' {
+		if len(name) != 0 && name[0] == '@' {
 			res = append(res, name)
 		}
 	}
